@@ -12,7 +12,7 @@ REQUIRED = ['ha_cap', 'ha_total', 'ha_optimal', 'waiting_iff', 'ha_tie', 'ha_onl
             'd_hondt_ok', 'sainte_lague_ok', 'danish_ok', 'macau_ok', 'imperiali_ok', 'modified_first_ok', 'divisor_values', 'cfgOK_of_divisor', 'ha_strict_separation', 'ha_silent_tie_witness', 'ha_is_the_unique_solution', 'list_machine_refines']
 NAME_MODES = ['str', 'int0', 'empty0', 'person', 'tuple']
 REQUIRED_COUNTERS = ['tie_batch', 'cap_binds', 'zero_vote_party', 'prev_nonzero_non_dhondt', 'beyond_2^53',
-                     'modified_first_coef', 'multi_batch', 'divisor_values', 'coef_as_decimal', 'coef_as_default', 'coef_as_fraction']
+                     'modified_first_coef', 'multi_batch', 'divisor_values', 'coef_as_decimal', 'coef_as_default', 'coef_as_fraction', 'first_coef_below_one']
 RULE = ('1-6 parties; votes from tie-forcing small sets, zero-vote parties, and [0,10^30]; n_seats 1..12; the five exact '
         'built-in divisors and modified_first_coef wrappers (first coefficient <= divisor(1)); prev_gains with sum <= n '
         '(also for parties without votes); caps in [prev, prev+3] leaving one party eligible. Non-trivial = at least two '
@@ -110,7 +110,11 @@ def _gen_one(rng, directed=None):
         # documented use: first coefficient raises the first divisor but stays <= divisor(1)
         d1 = _TEXTBOOK[div](1)
         first = num_str(rng.choice([Fraction(14, 10), Fraction(14, 10), Fraction(142, 100), Fraction(1), Fraction(12, 10), Fraction(3, 2), d1,
-                                    Fraction('1.4142136'), Fraction('1.0000001'), Fraction(1.4), Fraction(1.1)]))
+                                    Fraction('1.4142136'), Fraction('1.0000001'), Fraction(1.4), Fraction(1.1),
+                                    # a first coefficient below one (any positive value <= divisor(1) is a valid wrapper)
+                                    Fraction(7, 10), Fraction(1, 2), Fraction(9, 10), Fraction(1, 1000), Fraction(0.3)]))
+        if Fraction(first) < 1:
+            tags.append('first_coef_below_one')
         if Fraction(first) > d1:
             first = num_str(d1)
         tags.append('modified_first_coef')
@@ -219,7 +223,8 @@ def generate(rng, tier):
                             # long decimals (reduced denominator beyond 10^6) and doubles that are no short decimal
                             (num_str(Fraction('1.4142136')), 'decimal'), (num_str(Fraction('1.0000001')), 'decimal'),
                             (num_str(Fraction('1.23456789012345678901')), 'decimal'),
-                            (num_str(Fraction(1.4)), 'float'), (num_str(Fraction(1.1)), 'float')]:
+                            (num_str(Fraction(1.4)), 'float'), (num_str(Fraction(1.1)), 'float'),
+                            ('7/10', 'decimal'), ('1/2', 'float'), ('9/10', 'fraction'), ('1/1000', 'decimal'), (num_str(Fraction(0.3)), 'float')]:
             if Fraction(first) <= _TEXTBOOK[div](1):
                 yield {'op': 'divisor', 'divisor': div, 'first_coef': first, 'first_kind': kind, 'upto': 12,
                        '_tags': ['divisor_values', 'modified_first_coef', 'coef_as_' + kind]}
